@@ -292,7 +292,7 @@ func MutCfg(c *core.Ctx, fams []string, nsel int) string {
 		core.TLASet(c.Findings.OpenIDs()), core.TLASet(fams), nsel, c.Seed%1000)
 }
 
-var allFams = []string{"e1", "e2", "e3", "prim", "stmt", "nest", "seq", "lit", "key", "long", "rw", "lex"}
+var allFams = []string{"e1", "e2", "e3", "prim", "stmt", "nest", "seq", "lit", "key", "long", "rw", "reasi", "divasi", "lc", "lex"}
 
 // Check is the C03 property check.
 func Check(c *core.Ctx) (map[string]any, []string, error) {
